@@ -169,6 +169,9 @@ WITNESSES = {
         lambda: _single("LEAKY_RELU", "int8", [1, 2, 2, 4], 1.0, 0, 1e-8, 0, ("LeakyReluOptions", dict(Alpha=1000.0))),
     "OverflowError@fp_math.saturating_rounding_mul32:convert_lrelu_to_lut:PRELU":
         lambda: _single("PRELU", "int8", [1, 1, 2, 8], 4.0, 0, 1e-4, 0, None, ([1, 1, 8], [127] * 8, 4.0, -128)),
+    # RSQRT int8 with a small input scale: the output multiplier's shift takes the value past 32 bits
+    "OverflowError@fp_math.saturating_rounding_mul32:create_lut_rsqrt_int8_op":
+        lambda: _single("RSQRT", "int8", [1, 5, 7], 1e-4, -128, 2.0 ** -24, 25),
     # EXP int8 with exp(scale * (127 - zp)) beyond the double range
     "OverflowError@lut.create_lut_8bit_op":
         lambda: _single("EXP", "int8", [1, 4, 5, 8], 100.0, -128, 1.0, 0),
